@@ -273,6 +273,15 @@ impl Inner {
     }
 }
 
+impl Drop for Inner {
+    fn drop(&mut self) {
+        // The reading side is gone. A feeder that was told to pause is waiting for the reader to
+        // make room; it has to learn that it can go on (discarding the rest of the body), or
+        // nothing would ever wake it again.
+        self.wake_io();
+    }
+}
+
 #[cfg(test)]
 mod tests {
     use std::{task::Poll, time::Duration};
